@@ -34,7 +34,10 @@ RULE = (
     "scheduler.start(); (b) the probe's terminal is on_error carrying exactly the injected exception; (c) no user callback is "
     "logged after the failure (except a downstream do_action.on_error / finally_action, callbacks still running in the very scheduler "
     "action in which the failure happened, and callbacks driven by a source whose subscription could not be closed yet), every probe trace matches N*(E|C)?, "
-    "and no logged source subscription (or `using` resource) stays open. Non-trivial: the armed invocation was reached. "
+    "and no logged source subscription (or `using` resource) stays open; enumerated forms additionally require every source the pipeline was "
+    "built over to be released within the virtual instant of the on_error, also with window/group subscribers attached directly "
+    "(inner probes subscribe every window/group at once; group_join is enumerated both through flat_map and with its windows subscribed "
+    "directly), and excuse later callbacks only for a synchronous source still emitting inside its own subscribe(). Non-trivial: the armed invocation was reached. "
     "Check `nested` (enumerated, no scheduler argument, no virtual time): a subscribe-time callback of an INNER sequence (multicast "
     "subject_factory/mapper, publish/replay mapper, create's subscribe function; using/defer factories as controls) is armed at its "
     "k-th call (k in 0..2) while the inner sequence is subscribed by flat_map/concat_map/switch_map/merge_all/switch_latest/"
